@@ -83,20 +83,34 @@ class History:
         self.after_cut = []   # sizes of chunks handed out after the abort
         self.oversized = []   # read(n) that returned more than n bytes
         self.after_stop = None  # what next() did on an exhausted wrapper
+        self.pieces = 0       # eat_chunk calls that continued a chunk
 
 
-def instrument(insp, name, faults, hist):
+def instrument(insp, name, faults, hist, src):
+    """Everything is keyed by the index of the SOURCE chunk being processed
+    (the number of chunks the source has delivered so far, minus one), not by
+    the number of eat_chunk calls: how the wrapper hands a chunk to an
+    inspector - in one call, in pieces, not at all when it is empty - is its
+    own business."""
     orig_eat = insp.eat_chunk
     hist.eats[name] = []
     hist.state[name] = []
     plan = {f['at']: f for f in faults if f['insp'] == name}
 
     def eat(chunk):
-        i = len(hist.eats[name])
-        hist.eats[name].append(chunk)
+        i = max(0, len(src.delivered) - 1)
+        lst = hist.eats[name]
+        while len(lst) <= i:
+            lst.append(None)
+            hist.state[name].append(None)
+        piece = lst[i] is not None
+        lst[i] = chunk if not piece else bytes(lst[i]) + bytes(chunk)
+        if piece:
+            hist.pieces += 1
         if name in hist.raised:
             hist.after_raise[name] = hist.after_raise.get(name, 0) + 1
-        f = plan.get(i)
+        # an injected fault fires on the first piece of its chunk
+        f = plan.get(i) if not piece else None
         armed = None
         if f is not None and f['phase'] == 'before':
             exc = make_exc(f['exc'])
@@ -133,10 +147,10 @@ def instrument(insp, name, faults, hist):
             hist.raised.setdefault(name, (i, exc, True))
             raise exc
         try:
-            hist.state[name].append((bool(insp.complete),
-                                     bool(insp.format_match)))
+            hist.state[name][i] = (bool(insp.complete),
+                                   bool(insp.format_match))
         except Exception as e:
-            hist.state[name].append(('EXC', type(e).__name__))
+            hist.state[name][i] = ('EXC', type(e).__name__)
     insp.eat_chunk = eat
     orig_finish = insp.finish
 
@@ -230,7 +244,7 @@ def _run_session(data, case, faults, src_fault):
     imgsim.order_inspectors(w, case['order'])
     hist = History()
     for name, insp in imgsim.wrapper_inspectors(w).items():
-        instrument(insp, name, faults, hist)
+        instrument(insp, name, faults, hist, src)
     op = 0
     mix = case.get('mixed_calls')
     while True:
@@ -351,7 +365,8 @@ def judge(case, hist, src, w, close_exc, viol):
     if hist.at_cut is not None:
         st0 = hist.at_cut['state'].get(expected) or []
         rz0 = hist.raised.get(expected)
-        mm = [i for i, t in enumerate(st0) if t[0] is True and t[1] is False]
+        mm = [i for i, t in enumerate(st0)
+              if t is not None and t[0] is True and t[1] is False]
         if mm and (rz0 is None or rz0[0] > mm[0]):
             hist.at_cut['kind'] = 'mismatch'
         # the reader went on after the abort: rules about the stream up to
@@ -395,7 +410,7 @@ def judge(case, hist, src, w, close_exc, viol):
     if expected in names:
         rz = raised.get(expected)
         for i, stt in enumerate(hist.state[expected]):
-            if stt[0] is True and stt[1] is False:
+            if stt is not None and stt[0] is True and stt[1] is False:
                 cut, cut_kind = i, 'mismatch'
                 break
         if rz is not None and (cut is None or rz[0] <= cut):
@@ -466,23 +481,30 @@ def judge(case, hist, src, w, close_exc, viol):
         upto_cut = offered_all[:cut + 1]
     else:
         full = upto_cut = offered_all
-    def ne(seq):
-        # empty chunks carry no bytes: whether the wrapper passes them on to
-        # the inspectors is its own business
-        return [c for c in seq if c]
+    # judged on the BYTES an inspector was offered, in order: whether the
+    # wrapper passes empty chunks on, or hands a chunk over in pieces, is its
+    # own business
+    def joined(seq):
+        return b''.join(bytes(c) for c in seq if c)
+    jf = joined(full)
+    ju = jf if upto_cut is full else joined(upto_cut)
     for n in names:
         got = eats[n]
+        gb = joined(got)
         if n in raised:
-            want = upto_cut[:raised[n][0] + 1]
-            ok = got == want or ne(got) == ne(want)
+            # everything before the chunk it failed on, and no more than
+            # that chunk (it may have failed on a piece of it)
+            k = raised[n][0]
+            ok = gb.startswith(joined(upto_cut[:k])) and \
+                joined(upto_cut[:k + 1]).startswith(gb)
         elif cut is not None and surf is not None and surf[0] == cut:
-            # may or may not have been offered the cut chunk (order)
-            ok = ne(got) in (ne(full), ne(upto_cut))
+            # may or may not have been offered (part of) the cut chunk
+            ok = gb.startswith(jf) and ju.startswith(gb)
         else:
-            ok = ne(got) == ne(full)
+            ok = gb == jf
         if not ok:
             viol('inspector_not_offered_stream', inspector=n,
-                 offered=[len(c) for c in got[:10]],
+                 offered=[len(c or b'') for c in got[:10]],
                  wanted=[len(c) for c in full[:10]],
                  n_offered=len(got), n_wanted=len(full))
             break
